@@ -42,7 +42,9 @@ def reference_tables(d):
             tables.append(None)
             continue
         prio = corpus.documented_priority(p, rec['facts'])
-        tables.append(ref.PatTable(rec, prio, outcome, f'{vname}:{p.kind}({corpus.rust_lit(p.lit)})'))
+        tb = ref.PatTable(rec, prio, outcome, f'{vname}:{p.kind}({corpus.rust_lit(p.lit)})')
+        tb.cb_fn, tb.cb_kind = p.cb_fn, p.cb_kind
+        tables.append(tb)
     return (tables if ok else None), recs, req
 
 
